@@ -179,7 +179,7 @@ def writeRescind (s : St) : St :=
 def fireWrite (s : St) : St :=
   if s.wRemotes.isEmpty then
     -- "Stopping after timeout with no remotes."
-    { s with now := max s.now s.wDl, wEnabled := false,
+    { s with now := max s.now s.wDl,
              stop := some { kind := .noRemotes, time := max s.now s.wDl, ret := !(s.hBusy || s.rBusy), writeSaw := false } }
   else
     { voteAs { s with now := max s.now s.wDl } WRITE with
